@@ -173,9 +173,10 @@ func (g *guard) ReleaseTreasureGuard(guardID ID) {
 
 	if len(g.waitForUnlock) > 0 && g.waitForUnlock[0] == int64(guardID) {
 		g.waitForUnlock = g.waitForUnlock[1:]
-		if len(g.waitForUnlock) == 0 {
-			atomic.StoreInt64(&g.largestGuardID, 0)
-		}
+		// The ID counter is deliberately never reset: a guard ID must stay unique for the
+		// lifetime of the guard, otherwise a late duplicate release of an old ID (e.g. a
+		// deferred release after Save already released the guard) would match and release
+		// the guard of the next holder.
 		g.cond.Broadcast()
 		return
 	}
